@@ -22,9 +22,17 @@
     distinct earlier sends at least one delay before);
   * `C15_conservation_trace`: the same statement on the returned unfiltered trace, in the
     vocabulary of the monitor (`normalSentCount`, `share`).
+  * `C15_monitor_accepts_model_partial`, `C15_monitor_accepts_model`: **the monitor accepts the
+    model's own observation** (`modelObs`: what the driver compares the implementation with) —
+    for every case, run, oracle and budget, under the guard that a run ending because `pick_next`
+    returned `None` left no normal packet queued; the guard follows from the input bounds of
+    `C19_total` (second theorem, no hypothesis about the run) and is needed:
+    `C15_monitor_rejects_unreachable_packet` is a model observation the monitor rejects (a packet
+    `Duration::MAX` after the clock, outside the u64-nanosecond range of trace files).
 -/
 import MbVerif.Proofs.SimMatch
 import MbVerif.Proofs.SimRaw
+import MbVerif.Proofs.SimMonitorAccept
 import MbVerif.Spec.C15
 
 namespace Mb.C15
@@ -259,5 +267,180 @@ theorem C15_causality_matching_raw (budget : Nat) (mc ms : List Machine) (raw : 
 example : (match exState with
     | some st => decide ((loop exOracle exArgs.unfiltered 100 st 0 0).stop = .noNormal)
     | none => false) = true := by decide
+
+/-! ### the monitor accepts the model's own observation -/
+
+/-- the guard of `C15_monitor_accepts_model_partial`: a run that ended because `pick_next`
+    returned `None` left no normal packet waiting in the queues of its last state (`pending` =
+    the side's base NormalSent events plus its queued normal TunnelSent events) -/
+def DrainedIfEmpty (o : SimOut σ) : Prop :=
+  o.stop = .queueEmpty → ∀ stf, o.final = some stf → ∀ cl, stf.sq.pending cl = 0
+
+/-- **The C15 monitor accepts the model's own observation (partial).**  For every case (machine
+    lists on both sides, raw input trace with all direction tokens, network delay), every run
+    (`sim` or `sim_advanced`, any arguments, filters, caps, fractions, packets-per-second limit),
+    every oracle and every loop budget: if the model run that ended because `pick_next` returned
+    `None` left no normal packet waiting (`DrainedIfEmpty`; `C15_monitor_rejects_unreachable_packet`
+    shows the guard is needed, `C15_monitor_accepts_model` discharges it from bounds on the inputs),
+    the monitor `C15.monitor`, evaluated on the model's observation of the run, reports no failure.
+    A faulting run is observed as a panic, which this monitor ignores; filtered runs are only
+    checked for their order. -/
+theorem C15_monitor_accepts_model_partial (budget : Nat) (c : CaseIn) (r : RunIn) (orc : σ)
+    (hdr : DrainedIfEmpty (modelOut ρ budget c r orc)) :
+    C15.monitor c (modelObs ρ budget c r orc) = none := by
+  cases hp : (modelOut ρ budget c r orc).stop.isPanic with
+  | true =>
+    obtain ⟨cls, hc⟩ := res_panic (t0 := obsT0 c) hp
+    unfold C15.monitor
+    rw [modelObs_res, hc]
+  | false =>
+    have hres := res_ok (t0 := obsT0 c) hp
+    have hok := isPanic_false_no_fault hp
+    apply monitor_none_of (tr := (modelOut ρ budget c r orc).trace.map (SimEvent.shift (obsT0 c)))
+    · rw [modelObs_res, hres]
+    · exact sortedByTime_shift _ _ (C15_trace_sorted ρ budget c.mc c.ms _ _ orc)
+    · intro hoc hon
+      rw [modelObs_run] at hoc hon ⊢
+      constructor
+      · apply causality_shift
+        intro cl pd T
+        have := C15_causality_trace ρ budget c.mc c.ms (normalLines c.trace) c.delay (r.effArgs c.delay) orc
+          (effArgs_delay r c.delay) hoc hon (by rw [← parseTraceRaw_eq]; exact hok) cl pd T
+        rw [← parseTraceRaw_eq] at this
+        exact this
+      · -- conservation with the monitor's "complete" flag
+        have htr : (modelOut ρ budget c r orc).trace = (modelOut ρ budget c r orc).stream.map (·.ev) := by
+          have := simAdvanced_trace_stream ρ budget c.mc c.ms (parseTraceRaw c.trace c.delay) (r.effArgs c.delay) orc hok
+          rw [filter_keep_unfiltered _ hoc hon] at this
+          exact this
+        have hlen : ((modelOut ρ budget c r orc).trace.map (SimEvent.shift (obsT0 c))).length =
+            (modelOut ρ budget c r orc).stream.length := by
+          rw [List.length_map, htr, List.length_map]
+        have hcnt : ∀ cl, normalSentCount ((modelOut ρ budget c r orc).trace.map (SimEvent.shift (obsT0 c))) cl =
+            (modelOut ρ budget c r orc).stream.countP (sentNormal cl) := by
+          intro cl
+          rw [normalSentCount_shift, htr, normalSentCount_map_ev]
+        have hcons := simAdvanced_conserve_final ρ budget c.mc c.ms (normalLines c.trace) c.delay (r.effArgs c.delay) orc
+        rw [← parseTraceRaw_eq] at hcons
+        have hle : ∀ cl, (modelOut ρ budget c r orc).stream.countP (sentNormal cl) ≤ share (normalLines c.trace) cl := by
+          intro cl; rw [share_eq_shareOf]; exact hcons.1 cl
+        unfold conservation
+        rw [hlen]
+        simp only [hcnt]
+        cases hcomp : (((r.effArgs c.delay).maxTraceLength == 0 ||
+            decide ((modelOut ρ budget c r orc).stream.length < (r.effArgs c.delay).maxTraceLength)) &&
+            ((r.effArgs c.delay).maxSimIterations == 0 ||
+              decide ((modelOut ρ budget c r orc).stream.length < (r.effArgs c.delay).maxSimIterations))) with
+        | false =>
+          simp only [Bool.false_eq_true, if_false, List.all_cons, List.all_nil, Bool.and_true, Bool.and_eq_true,
+            decide_eq_true_eq]
+          exact ⟨hle true, hle false⟩
+        | true =>
+          simp only [Bool.and_eq_true, Bool.or_eq_true, beq_iff_eq, decide_eq_true_eq] at hcomp
+          have heq : ∀ cl, (modelOut ρ budget c r orc).stream.countP (sentNormal cl) = share (normalLines c.trace) cl := by
+            cases hs : (modelOut ρ budget c r orc).stop with
+            | fault f => exact absurd hs (hok f)
+            | loopFuel => rw [hs] at hp; simp [Stop.isPanic] at hp
+            | maxTrace =>
+              have := simAdvanced_maxTrace ρ budget c.mc c.ms _ _ orc hs
+              change 0 < _ ∧ _ ≤ (modelOut ρ budget c r orc).trace.length at this
+              rw [htr, List.length_map] at this
+              exfalso; rcases hcomp.1 with h | h <;> omega
+            | maxIter =>
+              have := simAdvanced_maxIter ρ budget c.mc c.ms _ _ orc hs
+              change 0 < _ ∧ _ ≤ (modelOut ρ budget c r orc).stream.length at this
+              exfalso; rcases hcomp.2 with h | h <;> omega
+            | noNormal =>
+              intro cl
+              rw [share_eq_shareOf]
+              exact (C15_conservation_raw ρ budget c.mc c.ms c.trace c.delay (r.effArgs c.delay) orc).2 hs cl
+            | queueEmpty =>
+              intro cl
+              obtain ⟨stf, hf, _⟩ := simAdvanced_queueEmpty_final ρ budget c.mc c.ms _ _ orc hs
+              rw [share_eq_shareOf]
+              exact hcons.2 stf hf (hdr hs stf hf) cl
+          simp only [if_true, List.all_cons, List.all_nil, Bool.and_true, Bool.and_eq_true, beq_iff_eq]
+          exact ⟨heq true, heq false⟩
+
+/-- **The C15 monitor accepts the model's own observation**, from bounds on the inputs only
+    (those of `C19_total`): machine lists on both sides accepted by validation, limit fractions
+    in [0, 1], normal-packet times up to `T`, a packets-per-second limit that is absent or at
+    least 1, a cap of `N ≥ 1` iterations (`max_sim_iterations = N`, or `max_trace_length = N`
+    with both filters off) and `(N + 2) · span N T delay ≤ Duration::MAX`.  Then, for every
+    oracle and loop budget, the model run does not fault, every queued event stays less than
+    `Duration::MAX` ahead of the clock, so `pick_next` returns `None` only when the queues are
+    empty (`simAdvanced_drained`), the guard of the partial theorem holds, and `C15.monitor`
+    reports no failure on the model's observation — with or without continuing after the last
+    normal packet, with any filters. -/
+theorem C15_monitor_accepts_model (budget : Nat) (c : CaseIn) (r : RunIn) (orc : σ) (N T : Nat)
+    (hmc : MachinesOK c.mc) (hms : MachinesOK c.ms)
+    (hfrac : Validate.fracOK (r.effArgs c.delay).fpClient = true ∧ Validate.fracOK (r.effArgs c.delay).fbClient = true ∧
+      Validate.fracOK (r.effArgs c.delay).fpServer = true ∧ Validate.fracOK (r.effArgs c.delay).fbServer = true)
+    (hT : ∀ l ∈ normalLines c.trace, l.1 ≤ T)
+    (hpps : ∀ p, (r.effArgs c.delay).network.pps = some p → 1 ≤ p)
+    (hcap : CappedAt (r.effArgs c.delay) N) (hN : 0 < N) (hg : (N + 2) * TB.span N T c.delay ≤ durMax) :
+    C15.monitor c (modelObs ρ budget c r orc) = none := by
+  by_cases hne : normalLines c.trace = []
+  · obtain ⟨cls, hc⟩ := res_panic (t0 := obsT0 c) (no_normal_line_panics ρ budget c r orc hne)
+    unfold C15.monitor
+    rw [modelObs_res, hc]
+  · apply C15_monitor_accepts_model_partial
+    intro hs stf hf cl
+    unfold modelOut at hs hf
+    rw [parseTraceRaw_eq] at hs hf
+    exact simAdvanced_drained ρ budget hmc hms (parseTrace_queueOK c.delay hne hT) hfrac (effArgs_delay r c.delay)
+      (parseTrace_effPps c.delay hne _ hpps) hcap hN hg orc hs stf hf cl
+
+/-- **The guard is needed.**  Two client packets, the second exactly `Duration::MAX`
+    (1.8·10^28 ns; not expressible in a trace file, whose times are u64 nanoseconds) after the
+    first, no machines, delay 0, through `sim` without caps: `pick_next` reads the offset
+    `Duration::MAX` as "nothing to do" (`C14_strict_bound_needed`), the model run ends with an
+    empty-queue stop after the four events of the first packet, and the monitor — which takes a
+    run that no cap cut short as complete — reports "normal packets not conserved (c=1/2)" on the
+    model's own observation. -/
+theorem C15_monitor_rejects_unreachable_packet :
+    (modelOut exOracle 8 farCase (demoSim 0 false) ()).stop = .queueEmpty ∧
+    (C15.monitor farCase (modelObs exOracle 8 farCase (demoSim 0 false) ())).isSome = true := by
+  refine ⟨by decide +kernel, ?_⟩
+  rw [modelObs_of_stream _ _ _ _ _ (by decide +kernel)]
+  decide +kernel
+
+/-- non-vacuity of `C15_monitor_accepts_model_partial`: the padding machine on the client side,
+    a raw trace with a padding line, all events recorded, continuing after the last normal
+    packet: the run ends with an empty queue after 20 iterations (two paddings sent and
+    delivered), the guard holds, and the monitor evaluates to `none` -/
+example :
+    (modelOut exOracle 100 demoCase (demoRun "u" 0 40 true false false) ()).stop = .queueEmpty ∧
+    (modelOut exOracle 100 demoCase (demoRun "u" 0 40 true false false) ()).stream.length = 20 ∧
+    ((modelOut exOracle 100 demoCase (demoRun "u" 0 40 true false false) ()).stream.filter
+      (fun r => match r.ev.event with | .paddingSent _ => true | _ => false)).length = 2 ∧
+    (match (modelOut exOracle 100 demoCase (demoRun "u" 0 40 true false false) ()).final with
+      | some stf => stf.sq.isEmpty
+      | none => false) = true := by decide +kernel
+
+example : C15.monitor demoCase (modelObs exOracle 100 demoCase (demoRun "u" 0 40 true false false) ()) = none := by
+  rw [modelObs_of_stream _ _ _ _ _ (by decide +kernel)]
+  decide +kernel
+
+/-- non-vacuity of `C15_monitor_accepts_model`: the padding machine passes validation, and the
+    demo case (padding machine on the client, four-line raw trace, 10 ms delay) with a cap of 40
+    iterations over times up to 3 ms meets every hypothesis — so the monitor accepts the model's
+    observation of that run for EVERY oracle and budget -/
+theorem demoPad_ok : MachinesOK [demoPad] := by
+  intro m hm
+  simp only [List.mem_singleton] at hm
+  subst hm
+  constructor
+  · decide +kernel
+  · intro st hst
+    simp only [demoPad, List.mem_singleton] at hst
+    subst hst
+    rfl
+
+example (budget : Nat) (orc : σ) :
+    C15.monitor demoCase (modelObs ρ budget demoCase (demoRun "u" 0 40 true false false) orc) = none :=
+  C15_monitor_accepts_model ρ budget demoCase _ orc 40 3000000 demoPad_ok (by intro m hm; cases hm)
+    ⟨by decide +kernel, by decide +kernel, by decide +kernel, by decide +kernel⟩ (by decide)
+    (by intro p hp; cases hp) (Or.inl rfl) (by decide) (by decide)
 
 end Mb.C15
